@@ -372,7 +372,7 @@ where
         confirmed: bool,
     ) -> Result<SendResponse, Error<R::PhyError>> {
         // Prepare transmission buffer
-        let (tx_config, rx_windows, _fcnt_up) = self.mac.send::<G, N>(
+        let (tx_config, rx_windows, fcnt_up) = self.mac.send::<G, N>(
             &mut self.rng,
             &mut self.radio_buffer,
             &SendData { data, fport, confirmed },
@@ -397,9 +397,13 @@ where
             Ok(response) => Ok(response.into()),
             Err(e) => {
                 // A radio error aborted the receive procedure: the uplink was sent, so its
-                // counter must still be consumed (a skipped counter is harmless).
-                if let mac::Response::SessionExpired = self.mac.rx2_complete() {
-                    return Ok(SendResponse::SessionExpired);
+                // counter must still be consumed - unless a downlink accepted before the error
+                // has already closed the uplink (counting it a second time would also count
+                // an answered uplink as unanswered for the ADR back-off).
+                if self.mac.get_fcnt_up() == Some(fcnt_up) {
+                    if let mac::Response::SessionExpired = self.mac.rx2_complete() {
+                        return Ok(SendResponse::SessionExpired);
+                    }
                 }
                 Err(e)
             }
